@@ -172,6 +172,8 @@ type c17Prog struct {
 	src    string
 	ops    []c17Op
 	splats int
+	// firstUse: the storm works on a parsed tree nothing has evaluated before
+	firstUse bool
 }
 
 func valDiagKey(v cty.Value, d hcl.Diagnostics) string {
@@ -313,6 +315,14 @@ func c17Program(c *core.Case) (*c17Prog, *gen.Scope) {
 		p.ops = []c17Op{
 			{name: "Expression.Value", run: func(ctx *hcl.EvalContext) string { return valDiagKey(e.Value(ctx)) }},
 			{name: "Expression.Variables", run: func(ctx *hcl.EvalContext) string { return travKey(e.Variables()) }},
+		}
+		if gen.Chance(r, 0.5) {
+			// the storm is the very first use of the parsed tree: the expectations
+			// come from a second parse of the same source
+			e2, _ := hclsyntax.ParseExpression([]byte(src), "e.hcl", hcl.InitialPos)
+			p.ops[0].storm = func(ctx *hcl.EvalContext) string { return valDiagKey(e2.Value(ctx)) }
+			p.ops[1].storm = func(ctx *hcl.EvalContext) string { return travKey(e2.Variables()) }
+			p.firstUse = true
 		}
 		return p, sc
 	case k < 8:
@@ -613,6 +623,9 @@ func c17Case(c *core.Case) {
 	}
 	c.SetInput(fmt.Sprintf("%s:\n%s\nGOROUTINES: %d x %d iterations\nSCOPE: %s", p.kind, p.src, G, iters, scopeStr(sc)))
 	c.Count("program:" + p.kind)
+	if p.firstUse {
+		c.Count("storms-as-first-use-of-the-tree")
+	}
 	c.Count(fmt.Sprintf("goroutines:%d", G))
 
 	// shared parent: functions and the variables that are not varied
